@@ -175,6 +175,23 @@ Theorem C10_U_parse_bytes_panic :
 Proof. exact U_parse_bytes_panic. Qed.
 Print Assumptions C10_U_parse_bytes_panic.
 
+Theorem C10_I_parse_bytes_panic :
+  U_overflowing_add_spec -> bit_spec -> trailing_zeros_spec -> I_wrapping_neg_spec -> is_negative_spec ->
+  forall dbg w n s r, 0 < w -> w mod 8 = 0 -> (0 < n)%nat ->
+  I_parse_bytes dbg w n s r = PPanic -> ~ (2 <= r <= 36).
+Proof. exact I_parse_bytes_panic. Qed.
+Print Assumptions C10_I_parse_bytes_panic.
+
+(* parse_str_radix = from_str_radix with Err turned into a panic *)
+Theorem C10_U_parse_str_radix : forall dbg w n s r,
+  U_parse_str_radix dbg w n s r = match U_from_str_radix dbg w n s r with PErr _ => PPanic | x => x end.
+Proof. exact U_parse_str_radix_def. Qed.
+Print Assumptions C10_U_parse_str_radix.
+Theorem C10_I_parse_str_radix : forall dbg w n s r,
+  I_parse_str_radix dbg w n s r = match I_from_str_radix dbg w n s r with PErr _ => PPanic | x => x end.
+Proof. exact I_parse_str_radix_def. Qed.
+Print Assumptions C10_I_parse_str_radix.
+
 Theorem C10_from_radix_be_panic :
   U_overflowing_add_spec ->
   forall dbg w n ds r, 0 < w -> w mod 8 = 0 -> (0 < n)%nat -> bytes ds ->
